@@ -201,7 +201,11 @@ fn run_plan_inner(plan: &SimPlan) -> PlanResult {
                 for (pos, jidx) in tp.jobs.iter().enumerate() {
                     sched.yield_point(tid);
                     let env = ExecEnv { sched: Some((sched.clone(), tid)), lib_pass: plan.lib_pass, all_formats: plan.all_formats, handle_offset: tp.offsets.get(pos).copied().unwrap_or(0) };
-                    let reuse = tp.reuse.get(pos).copied().unwrap_or(false);
+                    // a host that registers the built-in library and one that
+                    // does not are different hosts: a server object is only
+                    // handed on between jobs that agree on that
+                    let same_host = pos > 0 && plan.jobs[tp.jobs[pos - 1]].use_std == plan.jobs[*jidx].use_std;
+                    let reuse = tp.reuse.get(pos).copied().unwrap_or(false) && same_host;
                     let prev = if reuse { server.take() } else { None };
                     let seq_start = sched.next_seq();
                     let (record, fs, reused_server) = exec_job(&plan.jobs[*jidx], &plan.faults[*jidx], &env, prev, &cap);
